@@ -228,6 +228,9 @@ def order_arg(arg, order_params=(), std_default=False):
     return "?"
 
 
+# member functions of future_common that load the slot RELAXED: their answer must never gate an access to the result
+HINT_LOADS = ("pending", "initialized")
+
 # position of the (first) memory-order argument of the atomic member functions
 ORDER_POS = {"load": 0, "store": 1, "xchg": 1, "rmw": 1, "wait": 1, "cas": 2}
 
@@ -260,6 +263,9 @@ class FnFacts:
         self.seq = 0
         self.order_params = []     # names of the parameters of type std::memory_order, with their position: (index, name)
         self.call_orders = []      # (callee name, [order_arg of every argument]) for every call made by this function
+        self.addr_of = []          # (member name, type of its object expression, in assert) for every member mentioned under a unary `&`
+        self.ret_type = ""         # declared return type
+        self.hint_calls = []       # calls (outside assertions) of the relaxed "hint" loads of a future: pending() / initialized()
 
 
 class Walker:
@@ -382,6 +388,7 @@ class Walker:
         # a function that hands out a type-erased callable (std::function / cocls::function) may allocate for large closures
         fty = qt(f)
         ret = fty.split("(")[0]
+        ff.ret_type = ret.strip()
         if "function<" in ret or any(a and re.search(r"\b" + re.escape(a) + r"\b", ret) for a in self.fn_aliases):
             ff.allocs.append("returns:" + ("std::function" if "std::function" in ret else "cocls::function"))
         # constructor member initialisers count as ctor accesses; skip
@@ -490,11 +497,32 @@ class Walker:
                     b = base_of(lhs)
                     if b:
                         self.stmt(b, ff, ctx)
+                elif (lhs.get("kind") == "UnaryOperator" and lhs.get("opcode") == "*") or lhs.get("kind") == "ArraySubscriptExpr":
+                    # a plain store through a pointer (`*s = x`, `p[i] = x`): recorded as a write to the pseudo field "*<pointer name>"
+                    # (seen with the seeded change r5-c19-dealloc-clears-trailer-after-release: a store into the released block)
+                    ff.seq += 1
+                    ff.plain.append({"field": "*" + (expr_name(lhs) or "?"), "write": True,
+                                     "afterOp": ctx.get("nops_override", len([x for x in ff.sites if not x["inAssert"]])),
+                                     "inAssert": ctx["in_assert"], "base": "", "locked": self.any_lock_held(ctx),
+                                     "btype": "", "seq": ff.seq, "lambda": ctx["lambda_depth"]})
+                    self.stmt(inner[0], ff, ctx)
                 else:
                     self.stmt(inner[0], ff, ctx)
                 for c in inner[1:]:
                     self.stmt(c, ff, ctx)
             return
+        if k == "UnaryOperator" and o.get("opcode") == "&":
+            # address-of: remember which members the operand mentions (`&_q[relpos]`, `&_regs[h]._pos`): a pointer into lock-guarded
+            # data can leave the lock region (seeded change r5-c16-copy-value-outside-lock)
+            def members(x, acc):
+                if isinstance(x, dict):
+                    if x.get("kind") in ("MemberExpr", "CXXDependentScopeMemberExpr"):
+                        acc.append((x.get("name") or x.get("member") or "", qt(strip(base_of(x))) if base_of(x) else ""))
+                    for c in x.get("inner", []):
+                        members(c, acc)
+                return acc
+            for name, bt in members(o, []):
+                ff.addr_of.append((name, bt, ctx["in_assert"]))
         if k == "UnaryOperator" and o.get("opcode") in ("++", "--"):
             inner = o.get("inner", [])
             if inner and strip(inner[0]).get("kind") in ("MemberExpr", "CXXDependentScopeMemberExpr"):
@@ -611,6 +639,8 @@ class Walker:
             ff.seq += 1
             ff.calls.append((mname, self.any_lock_held(ctx), ff.seq))
             ff.call_orders.append((mname, [order_arg(a, [n for _, n in ff.order_params]) for a in args]))
+            if mname in HINT_LOADS and not ctx["in_assert"]:
+                ff.hint_calls.append(mname)
             return
         for c in inner:
             self.stmt(c, ff, ctx)
